@@ -26,6 +26,11 @@ FLAG_KEEPS = {
   "DisableBit.ACTUATION": ["Data.qfrc_spring", "Data.qfrc_damper"],
 }
 
+# R-FLAGS.2b: (flag, fields, enable flags assumed on) - the field must stay computed for both values of every model atom
+KEEPS_CASES = [
+  ("DisableBit.SENSOR", ["Data.energy"], ("EnableBit.ENERGY",)),
+]
+
 # (velocity-derivative kernel, the force kernel it differentiates) - confirmed by reading derivative.py against passive.py / forward.py
 DERIVATIVE_OF = [
   ("derivative._qderiv_ellipsoid_fluid", "passive._fluid_force"),
@@ -56,7 +61,7 @@ MODULE_FLAGS = {
   "collision_driver": ["DisableBit.CONSTRAINT", "DisableBit.CONTACT", "DisableBit.NATIVECCD", "EnableBit.SLEEP"],
   "constraint": ["DisableBit.CONSTRAINT", "DisableBit.CONTACT", "DisableBit.EQUALITY", "DisableBit.FRICTIONLOSS", "DisableBit.LIMIT", "DisableBit.REFSAFE"],
   "derivative": ["DisableBit.ACTUATION", "DisableBit.DAMPER", "DisableBit.SPRING"],
-  "forward": ["DisableBit.ACTUATION", "DisableBit.CLAMPCTRL", "DisableBit.DAMPER", "DisableBit.EULERDAMP", "DisableBit.GRAVITY", "DisableBit.ISLAND", "DisableBit.SPRING", "EnableBit.ENERGY", "EnableBit.SLEEP"],
+  "forward": ["DisableBit.ACTUATION", "DisableBit.CLAMPCTRL", "DisableBit.DAMPER", "DisableBit.EULERDAMP", "DisableBit.GRAVITY", "DisableBit.ISLAND", "DisableBit.SENSOR", "DisableBit.SPRING", "EnableBit.ENERGY", "EnableBit.SLEEP"],  # SENSOR since fix f-energy: forward computes the energy itself when the sensor stage is off
   "inverse": ["DisableBit.DAMPER", "DisableBit.EULERDAMP", "EnableBit.INVDISCRETE"],
   "io": ["DisableBit.FILTERPARENT", "DisableBit.MULTICCD", "DisableBit.NATIVECCD", "EnableBit.SLEEP"],
   "passive": ["DisableBit.CONTACT", "DisableBit.DAMPER", "DisableBit.GRAVITY", "DisableBit.SPRING"],
